@@ -1,6 +1,6 @@
 (* the property-level statements of layer L2 and their proofs from the layer's theorems (the Props*.v files only [exact] these) *)
 From stdpp Require Import list numbers option.
-From L2 Require Import Model Base Own Jobs Shape DwInv Pool Fut Sig Task Wake WakeInv Term Susp.
+From L2 Require Import Model Base Own Jobs Shape DwInv Pool Fut Sig Task TaskInv Wake WakeInv Term Susp.
 
 (* ---------- C01 ---------- *)
 Definition C01_full : Prop :=
@@ -100,6 +100,15 @@ Definition C07_waker_steps : Prop :=
                 s'.(log) = GSig f op :: s.(log)).
 Lemma C07_waker_steps_main : C07_waker_steps.
 Proof. split; [apply poll_wait_stores_waker|apply signal_calls_stored_waker]. Qed.
+
+(* two of the three clauses of the task-wake invariant: in drain_queue the result is known to be missing where the waker is
+   stored (FDQdeq / FDQstore / FDQempty1), and a missing result still has its signalling job (in the queue or in a runner's hand) *)
+Definition C07_task_parts : Prop :=
+  forall (T : ftables), own_cond T -> forall scripts npool nev tr s, run T (init scripts npool nev) tr = Some s ->
+  (forall c st fr, stacks s !! c = Some st -> fr ∈ st -> rn_ok s fr = true) /\
+  (forall f, f < length s.(futs) -> (getf s f).(res) = FNone -> nsig f s >= 1).
+Lemma C07_task_parts_main : C07_task_parts.
+Proof. exact reachable_task_parts. Qed.
 
 (* ---------- statements of this layer that are NOT proved (kept for the record; see the header of the Props files) ---------- *)
 (* C07 / C06: with at least one pool runner, in a terminal state with all events fired every caller has finished its script
